@@ -90,6 +90,33 @@ def mutate(rng, text):
     return text[:a] + text[b:]
 
 
+STALE_SEEN = []
+
+
+def stale_refs(G):
+    """a line of the Gfa lists, among its back-references, a line that is not part of the Gfa"""
+    ids = {id(x) for x in G.lines}
+    for ln in G.lines:
+        refs = getattr(ln, '_refs', None) or {}
+        for k, members in refs.items():
+            for m in members:
+                if id(m) not in ids:
+                    return True
+    return False
+
+
+def probe_f65():
+    g = impl.gfapy()
+    G = g.Gfa(version=None, vlevel=0)
+    for l in ['S\t2\t*', 'L\t2\t-\t\t-\t2M']:
+        try:
+            G.add_line(l)
+        except g.Error:
+            pass
+    r = impl.outcome(lambda: G.rm('2'))
+    return r[0] == 'err' and r[1][0] != 'gfapy'
+
+
 def line_calls(text, version, vlevel):
     """entry points on one line text"""
     g = impl.gfapy()
@@ -149,8 +176,13 @@ def doc_calls(rng, lines, version, vlevel, tmpdir):
     def api():
         G = add_all()
         names = list(G.names)
+        calls_g = (G.line, G.try_get_line, G.segment, G.try_get_segment, G.rm)
+        if stale_refs(G):
+            # F65: a failed add_line left a half-connected line behind; removal would meet it
+            STALE_SEEN.append(True)
+            calls_g = calls_g[:-1]
         for n in rng.sample(HOSTILE, 6) + rng.sample(names, min(3, len(names))):
-            for f in (G.line, G.try_get_line, G.segment, G.try_get_segment, G.rm):
+            for f in calls_g:
                 try:
                     f(n)
                 except g.Error:
@@ -255,6 +287,10 @@ def run(ctx, deep, model_ok):
         import shutil
         shutil.rmtree(tmpdir, ignore_errors=True)
     ctx.notes['outcomes'] = kinds
+    if probe_f65():
+        ctx.known('F65', "a failed add_line ('L 2 - <empty> - 2M' at level 0) leaves the half-connected link among the "
+                         "back-references of segment 2; rm('2') then raises KeyError")
+    ctx.notes['documents_with_stale_references_after_a_failed_addition'] = len(STALE_SEEN)
     if len(ctx.violations) > 5:
         # keep the report readable: distinct messages only
         seen, keep = set(), []
